@@ -8,6 +8,7 @@ from __future__ import annotations
 
 import collections
 import json
+import os
 import time
 import warnings
 
@@ -29,7 +30,7 @@ PROP = "C13"
 # features of the hidden model that keep the structure regular (every element name used consistently)
 FEATURES = ["none", "no-namespace", "unqualified-elements", "qualified-attributes", "occurs-0-unbounded", "occurs-1-unbounded", "occurs-2-3", "choice", "choice-repeating",
             "sequence-repeating", "nested-anonymous", "attr-required", "attr-default", "nillable", "mixed", "typed-values", "import", "simple-content", "recursion",
-            "enum-string", "list-type", "binary-values", "all"]
+            "enum-string", "list-type", "binary-values"]
 # canonical spellings only (the property: "values are spelled canonically")
 CANON = {"boolean": ["true", "false"], "decimal": ["1.5", "-0.25"], "float": ["1.5", "-2.5"], "dateTime": ["2020-01-02T03:04:05", "1999-12-31T23:59:59.500Z"],
          "gYear": ["2001", "1999Z"], "hexBinary": ["0AFF", "00"], "NMTOKENS": ["a b", "c"], "QName": ["xs:string"]}
@@ -134,13 +135,73 @@ def h_xml(ch: Chooser, vec: list, maxfeat: int, nsamples: int):
                 if kind == "order-only" and len(docs) > 1 and ({"sequence-repeating", "choice-repeating"} & set(s.features)) and "sequence" not in "".join(g.files.values()):
                     return dict(ok=False, case={**c, "output": r[1]}, bucket="KF/interleaved-repeats-lose-their-sequence-group-when-samples-are-merged",
                                 detail=f"sample {d}\noutput {r[1]}")
-                if kind == "content" and "nillable" in s.features and "xsi:nil" in "".join(docs) and ":nil=\"true\"" in r[1] and "nil" not in d:
-                    return dict(ok=False, case={**c, "output": r[1]}, bucket="KF/element-nil-in-one-sample-loses-its-value-in-the-others",
-                                detail=f"sample {d}\noutput {r[1]}\nparsed {p[1]!r}")
+                kf = nil_finding(a, b, [I.strip_ws(resolve(I.parse_scoped(x))) for x in docs]) if kind == "content" else None
+                if kf:
+                    return dict(ok=False, case={**c, "output": r[1]}, bucket=kf, detail=f"sample {d}\noutput {r[1]}\nparsed {p[1]!r}")
                 return dict(ok=False, case={**c, "output": r[1]}, bucket=f"xml/sample-not-reproduced/{kind}/{feats}", detail=f"sample {d}\noutput {r[1]}\nparsed {p[1]!r}")
         return dict(ok=True, case=case, obs=str(len(docs)), nontrivial=h(tuple(docs)))
     finally:
         g.cleanup()
+
+
+NIL = ("{http://www.w3.org/2001/XMLSchema-instance}nil", "true")
+
+
+def _walk(t):
+    yield t
+    for k in t[2]:
+        if not isinstance(k, str):
+            yield from _walk(k)
+
+
+def _map(t, fn):
+    """rebuild a tree bottom-up; fn(tree) -> tree | None (dropped)"""
+    kids = []
+    for k in t[2]:
+        if isinstance(k, str):
+            kids.append(k)
+        else:
+            m = _map(k, fn)
+            if m is not None:
+                kids.append(m)
+    return fn((t[0], t[1], tuple(kids)))
+
+
+def nil_finding(sample, output, all_samples) -> str | None:
+    """Analysed defects around xsi:nil in samples, located at the element concerned (anything else stays a violation)."""
+    nil_names, valued_names = set(), set()
+    for t in all_samples:
+        for el in _walk(t):
+            (nil_names if NIL in el[1] else valued_names).add(el[0])
+    if not nil_names:
+        return None
+    both = nil_names & valued_names
+    # 1. an element that is nil in one sample and carries a value in another: the value is lost (written back as nil)
+    if both:
+        blank = lambda t: (t[0], (), ()) if t[0] in both else t  # noqa
+        if _map(sample, blank) == _map(output, blank) and any(el[0] in both and NIL in el[1] for el in _walk(output)):
+            return "KF/element-nil-in-one-sample-loses-its-value-in-the-others"
+        # ... and in mixed content the text following such an element is lost as well
+
+        def drop_tail(t):
+            kids, prev = [], None
+            for k in t[2]:
+                if isinstance(k, str) and prev is not None and prev[0] in both:
+                    prev = None
+                    continue
+                kids.append(k)
+                prev = None if isinstance(k, str) else k
+            return (t[0], t[1], tuple(kids))
+
+        if _map(_map(sample, blank), drop_tail) == _map(_map(output, blank), drop_tail):
+            return "KF/element-nil-in-one-sample-drops-the-text-after-it-in-mixed-content"
+    # 2. an element that some sample shows as nil is written as an explicit nil element where the sample had none
+    drop_nil = lambda t: None if (t[0] in nil_names and NIL in t[1]) else t  # noqa
+    so, oo = _map(sample, drop_nil), _map(output, drop_nil)
+    nils = lambda t: sum(1 for el in _walk(t) if NIL in el[1])  # noqa
+    if so == oo and nils(output) > nils(sample):
+        return "KF/absent-element-that-another-sample-shows-nil-is-written-as-nil"
+    return None
 
 
 def resolve(node, scope=None):
@@ -291,7 +352,9 @@ def run(tier: str, seed: int) -> int:
     t0 = time.time()
     th = tier == "thorough"
     # (features of the hidden model, samples per set, non-minimal answers in total)
-    passes = [(2, 3, 2), (1, 4, 3)] if th else [(1, 3, 2)]
+    passes = [(2, 2, 2), (2, 3, 1), (1, 4, 2), (1, 3, 3)] if th else [(1, 3, 2)]
+    if os.environ.get("VERIF_C13_PASSES"):  # timing experiments only
+        passes = [tuple(int(x) for x in p.split(",")) for p in os.environ["VERIF_C13_PASSES"].split(";") if p]
     tasks = []
     nmodels = []
     for maxfeat, nsamples, dev in passes:
